@@ -1,6 +1,7 @@
 CONSTANTS
   TraceFile = "lextrace.ndjson"
   DevUnderflowPanics = FALSE
+  DevBackrefInvalidUtf8 = FALSE
 SPECIFICATION TraceSpec
 INVARIANTS StackNonEmptyT PositionExactT
 CONSTRAINT HighWater
